@@ -742,6 +742,41 @@ func (c *fnCtx) callEvents(call *ast.CallExpr) alts {
 		return seq(a, one(e))
 	}
 	ce := Event{Kind: EvCall, Fn: c.fn, Depth: c.depth, Pos: call.Pos(), Node: call, Call: call, Callee: callee, Recv: recvExpr(call), Loop: c.inLoop(call.Pos())}
+	// a call through a function-typed parameter of a looked-into helper: the caller's argument
+	if pv, isVar := callee.(*types.Var); isVar {
+		if lit, tgt, owner := c.boundFuncArg(pv); owner != nil {
+			switch {
+			case tgt != nil:
+				ce2 := ce
+				ce2.Callee = tgt
+				if sub := c.inlineHelperX(tgt, call, true); sub != nil {
+					return seq(seq(a, one(ce2)), sub)
+				}
+				return seq(a, one(ce2))
+			case lit != nil:
+				lf := c.e.P.Lits[lit]
+				if lf != nil {
+					if owner.bind != nil || owner.derived {
+						d := *lf
+						d.Outer = owner
+						d.derived = true
+						d.orig = lf
+						lf = &d
+					}
+					return seq(seq(a, one(ce)), c.inlineLitFunc(lit, lf, callee, call))
+				}
+			}
+		}
+	}
+	// glue that takes function values is looked into like any other glue; the calls through its
+	// function-typed parameters are resolved inside (above)
+	if len(fargs) > 0 {
+		if f, isF := callee.(*types.Func); isF && c.e.P.isGlue(f) {
+			if sub := c.inlineHelper(callee, call); sub != nil {
+				return seq(seq(a, one(ce)), sub)
+			}
+		}
+	}
 	if len(fargs) == 0 {
 		if sub := c.inlineHelper(callee, call); sub != nil {
 			return seq(seq(a, one(ce)), sub)
@@ -770,6 +805,62 @@ func (c *fnCtx) callEvents(call *ast.CallExpr) alts {
 	_ = allInlined
 	// the call event of the combinator itself comes first (its own effects), then the closure's
 	return seq(seq(a, one(ce)), inl)
+}
+
+// boundFuncArg: v is a function-typed parameter of a looked-into helper instance (the current
+// function or an enclosing one); returns the argument bound to it — a literal or a declared function —
+// and the function instance the argument expression belongs to.
+func (c *fnCtx) boundFuncArg(v *types.Var) (*ast.FuncLit, *types.Func, *Func) {
+	if _, isSig := v.Type().Underlying().(*types.Signature); !isSig {
+		return nil, nil, nil
+	}
+	for f := c.fn; f != nil; f = f.Outer {
+		k := paramIndex(f, v)
+		if k < 0 {
+			continue
+		}
+		if f.bind == nil || f.bind.call == nil || k >= len(f.bind.call.Args) {
+			return nil, nil, nil
+		}
+		arg := ast.Unparen(f.bind.call.Args[k])
+		caller := f.bind.caller
+		if lit, ok := arg.(*ast.FuncLit); ok {
+			return lit, nil, caller
+		}
+		if tgt := funcValueTarget(caller.Info(), arg); tgt != nil {
+			return nil, tgt, caller
+		}
+		// handed through from the caller's own bound parameter
+		if id, ok := arg.(*ast.Ident); ok {
+			if pv, ok := caller.Info().Uses[id].(*types.Var); ok {
+				sub := &fnCtx{fn: caller}
+				return sub.boundFuncArg(pv)
+			}
+		}
+		return nil, nil, nil
+	}
+	return nil, nil, nil
+}
+
+// inlineLitFunc: the body of a function literal (given with the Func that resolves its captured
+// variables) runs exactly once here.
+func (c *fnCtx) inlineLitFunc(lit *ast.FuncLit, lf *Func, via types.Object, call *ast.CallExpr) alts {
+	enter := Event{Kind: EvEnter, Fn: c.fn, Depth: c.depth, Pos: lit.Pos(), Node: lit, Lit: lit, Via: via, ViaCall: call, Helper: true, Loop: c.inLoop(call.Pos())}
+	exit := Event{Kind: EvExit, Fn: c.fn, Depth: c.depth, Pos: lit.End(), Node: lit, Lit: lit, Via: via, ViaCall: call, Helper: true, Loop: c.inLoop(call.Pos())}
+	if c.e.inl[lf.origOrSelf()] || c.depth >= 6 {
+		return nil
+	}
+	c.e.inl[lf.origOrSelf()] = true
+	sub := c.e.enumerate(lf, c.depth+1)
+	delete(c.e.inl, lf.origOrSelf())
+	var out alts
+	for _, sp := range sub {
+		evs := []Event{enter}
+		evs = append(evs, sp.Events...)
+		evs = append(evs, exit)
+		out = append(out, evs)
+	}
+	return out
 }
 
 // funcValueTarget: expression denotes a declared function or method value (not a call).
@@ -832,7 +923,7 @@ func (c *fnCtx) inlineTarget(tgt *types.Func, via types.Object, call *ast.CallEx
 	ce := Event{Kind: EvCall, Fn: c.fn, Depth: c.depth + 1, Pos: call.Pos(), Node: call, Callee: tgt, Loop: c.inLoop(call.Pos())}
 	exit := Event{Kind: EvExit, Fn: c.fn, Depth: c.depth, Pos: call.End(), Node: call, Target: tgt, Via: via, ViaCall: call}
 	// method value of an unexported helper of this package (once.Do(s.worker)): look into its body
-	if def := c.e.P.Funcs[tgt]; def != nil && !tgt.Exported() && def.Pkg == c.fn.Pkg && !c.e.inl[def] && c.depth < 4 {
+	if def := c.e.P.Funcs[tgt]; def != nil && c.e.P.isGlue(tgt) && (def.Pkg == c.fn.Pkg || tgt.Exported()) && !c.e.inl[def] && c.depth < 4 {
 		var recv ast.Expr
 		for _, a := range call.Args {
 			if se, ok := ast.Unparen(a).(*ast.SelectorExpr); ok && funcValueTarget(c.info, se) == tgt {
@@ -883,16 +974,23 @@ func deriveFunc(def *Func, caller *Func, call *ast.CallExpr, recv ast.Expr) *Fun
 	return &d
 }
 
-// inlineHelper: an unexported function or method of the caller's own package with a small body is
+// inlineHelper: glue (an unexported function or method of the caller's own package, or an exported
+// repository function that is not part of the reference API) with a small body is
 // looked into (its events follow the call event, bracketed), so that extracting or inlining a
 // helper does not change what a path is seen to do.
 func (c *fnCtx) inlineHelper(callee types.Object, call *ast.CallExpr) alts {
+	return c.inlineHelperX(callee, call, false)
+}
+
+// inlineHelperX: anyPkg lifts the same-package restriction for unexported functions (used when the
+// function arrived as a value bound to a parameter of a looked-into helper).
+func (c *fnCtx) inlineHelperX(callee types.Object, call *ast.CallExpr, anyPkg bool) alts {
 	f, ok := callee.(*types.Func)
-	if !ok || f.Exported() || c.depth >= 4 || len(c.paths) > 400 || c.branchy() {
+	if !ok || !c.e.P.isGlue(f) || c.depth >= 4 || len(c.paths) > 400 || c.branchy() {
 		return nil // (path-heavy numeric code is not expanded further)
 	}
 	def := c.e.P.Funcs[f]
-	if def == nil || def.Pkg != c.fn.Pkg || c.e.inl[def] || def == c.fn.origOrSelf() {
+	if def == nil || (def.Pkg != c.fn.Pkg && !f.Exported() && !anyPkg) || c.e.inl[def] || def == c.fn.origOrSelf() {
 		return nil
 	}
 	if sig, ok := f.Type().(*types.Signature); ok && sig.Variadic() {
